@@ -642,6 +642,12 @@ func (c *Ctx) checkDefFragment(fn *ssa.Function, loops []*mapLoop) string {
 		return "the three loops do not range over the same map value"
 	}
 	V := outer.rng.X
+	// no loop other than the three map iterations (a repeat-until-stable loop does not terminate on cyclic definitions)
+	for _, l := range naturalLoops(fn) {
+		if l.header != outer.header && l.header != inner.header && l.header != last.header && l.body[outer.header] {
+			return "VIOLATION: definition expansion is wrapped in a further loop (repeat until nothing changes): definitions that refer to themselves or to each other make it run forever, where one pass leaves the reference as literal text"
+		}
+	}
 	if !outer.header.Dominates(last.header) || outer.region[last.header] {
 		return "the substitution loop does not come after the definition-in-definition loop"
 	}
@@ -699,6 +705,16 @@ func (c *Ctx) checkDefFragment(fn *ssa.Function, loops []*mapLoop) string {
 	if len(inner.region) != 1 || len(last.region) != 1 {
 		return "a loop body of the fragment contains control flow (the argument covers unconditional substitution only)"
 	}
+	// the outer loop body is straight-line apart from the inner loop
+	for b := range outer.region {
+		if inner.region[b] || b == inner.header {
+			continue
+		}
+		if _, isIf := b.Instrs[len(b.Instrs)-1].(*ssa.If); isIf {
+			return "the outer loop of the fragment skips some definitions conditionally (the argument needs every definition substituted into every other)"
+		}
+	}
+
 	// last loop: src' = ReplaceAll(src, "{{"+key+"}}", val) carried through the header phi
 	found := 0
 	for _, b := range fn.Blocks {
@@ -785,12 +801,12 @@ func (c *Ctx) RuleDefFragment() *Result {
 // ---------- NONDET-SRC ----------
 
 var nondetFns = map[string]map[string]bool{
-	"time":        {"Now": true, "Since": true, "Until": true},
-	"os":          {"Getpid": true, "Getppid": true, "Hostname": true},
-	"runtime":     {"NumGoroutine": true, "Stack": true, "NumCPU": true, "GOMAXPROCS": true},
-	"math/rand":   nil, // any
-	"math/rand/v2": nil,
-	"crypto/rand": nil,
+	"time":                   {"Now": true, "Since": true, "Until": true},
+	"os":                     {"Getpid": true, "Getppid": true, "Hostname": true},
+	"runtime":                {"NumGoroutine": true, "Stack": true, "NumCPU": true, "GOMAXPROCS": true},
+	"math/rand":              nil, // any
+	"math/rand/v2":           nil,
+	"crypto/rand":            nil,
 	"github.com/google/uuid": nil,
 }
 
